@@ -2,9 +2,9 @@
   C19 — a job group on disk always matches the group in memory.
   Property theorems (model: `Model/C19.lean`, helpers and the invariant: `Lemmas/C19.lean`).
 
-  `step fixed`   = `JobGroup`/`RemoteJob` with the four repairs `fixes/C19-job-context.diff`,
-                   `fixes/C19-subdir.diff`, `fixes/C19-add-atomic.diff`, `fixes/C19-stale-status.diff`
-                   (the main model; every positive theorem is about it);
+  `step fixed`   = `JobGroup`/`RemoteJob` with the five repairs `fixes/C19-job-context.diff`,
+                   `fixes/C19-subdir.diff`, `fixes/C19-add-atomic.diff`, `fixes/C19-stale-status.diff`,
+                   `fixes/C19-wait-status.diff` (the main model; every positive theorem is about it);
   `step current` = the code as pinned; `{ fixed with xFix := false }` = one repair missing.
                    Each part of the property the pinned code violates is a `Prop` of the variant, proved for
                    `fixed` and refuted by a concrete history for the variant lacking the repair
@@ -12,8 +12,9 @@
 
   What "for all histories, server outcomes and stopping points" means here: a history is a list of
   `Op`; a `launch`/`progress`/`list` operation carries the server's answers for that operation
-  (`accept` with an arbitrary fresh identifier or `refuse` per `create_job`/`rerun_job` call, a status
-  per `get_job_status` call) as *arbitrary lists*.  A list that runs out is the process stopping at
+  (`accept` with an arbitrary fresh identifier or `refuse` per `create_job`/`rerun_job` call; per
+  `get_job_status` call a status, a failed request whose error leaves the operation, or a failed request
+  that is swallowed — `Ans`) as *arbitrary lists*.  A list that runs out is the process stopping at
   that server call (memory lost, group re-opened from the file), so every prefix of every loop —
   before/after each accepted job, each write, each status poll — is a stopping point covered by `∀ ops`.
   Stopping *between* operations is re-opening (`Op.reopen`) at any position of the list.
@@ -80,7 +81,9 @@ theorem disk_refines_memory_after_every_operation (dir : Bool) (ops : List Op) (
 /-- non-vacuity: a history with a refusal in the middle of a launch, a cut rerun and re-openings -/
 example : (∀ op ∈ [Op.add plainJob none, .add ctxJob none, .add plainJob none,
                     launchPar [.accept 0, .refuse], .reopen,
-                    .launch true false true [.accept 2] [.error]], WFOp op) := by
+                    .launch true false true [.accept 2] [.st .error],
+                    .progress [.st .running, .fault .httpError], .list .active [.ignored, .st .success],
+                    .launch false false true [.accept 0] [.ignored, .st .running, .fault .connectionError]], WFOp op) := by
   simp [WFOp, WFJob, plainJob, ctxJob, launchPar]
 
 example : ((exec (step fixed) (create fixed false)
@@ -106,10 +109,34 @@ theorem disk_refines_memory_fails_when_add_appends_first :
 theorem disk_refines_memory_fails_with_unsaved_status :
     ¬ DiskRefinesMemory { fixed with statFix := false } := by
   intro h
-  have := h true [.add plainJob none, launchPar [.accept 0], .launch true true false [] [.waiting, .success]]
+  have := h true [.add plainJob none, launchPar [.accept 0], .launch true true false [] [.st .waiting, .st .success]]
     (by simp [WFOp, WFJob, plainJob, launchPar])
   revert this
   decide
+
+/-- pinned code: the sequential wait keeps the statuses it sees in memory until the job is complete; a
+status request that raises inside the wait (unrecoverable HTTP status, too many faults in a row) ends
+`run_sequential` with RUNNING in memory and WAITING in the file -/
+theorem disk_refines_memory_fails_when_wait_raises :
+    ¬ DiskRefinesMemory { fixed with pollFix := false } := by
+  intro h
+  have := h true [.add plainJob none, .launch false false true [.accept 0] [.st .running, .fault .httpError]]
+    (by simp [WFOp, WFJob, plainJob])
+  revert this
+  decide
+
+/-- the same history on the repaired code: the launch raises, the file holds RUNNING like memory; and a
+status refresh that raises after an earlier job changed status leaves that change in the file
+(`_update_job_statuses` writes job by job) -/
+example :
+    let r := run (step fixed) (create fixed true)
+      [Op.add plainJob none, .add plainJob none,
+       .launch false false true [.accept 0] [.st .running, .fault .httpError],
+       launchPar [.accept 0],
+       .progress [.st .suspended, .fault .httpError]]
+    r.2.map (·.res) = [.ok, .ok, .raised .httpError, .ok, .raised .httpError] ∧
+    r.1.mem.map (·.st) = [.suspended, .waiting] ∧
+    (r.1.disk.getD []).map (·.status) = [some .suspended, some .waiting] := by decide
 
 theorem disk_refines_memory_fails_on_current_code : ¬ DiskRefinesMemory current := by
   intro h
@@ -212,7 +239,7 @@ theorem current_code_drops_job_context :
 /-- **progress_partition.**  For every state (hence every state any history reaches, in every variant of
 the code) and every server answer: a `progress()` that returns gives the four counters of a partition
 of the group — successful + unsuccessful + sent + not sent = total = number of jobs. -/
-theorem progress_partition (v : Variant) (s : State) (sts : List Status)
+theorem progress_partition (v : Variant) (s : State) (sts : List Ans)
     (hok : (step v s (.progress sts)).2.res = .ok) :
     ∃ a b c d, (step v s (.progress sts)).2.view = [a, b, c, d, (step v s (.progress sts)).1.mem.length] ∧
       a + b + c + d = (step v s (.progress sts)).1.mem.length := by
@@ -229,7 +256,7 @@ theorem progress_classes_partition (l : List Job) :
 
 example : (step fixed (exec (step fixed) (create fixed true)
       [Op.add plainJob none, .add plainJob none, .add plainJob none, launchPar [.accept 0, .accept 0]])
-      (.progress [.success, .suspended])).2 = ⟨.ok, [1, 1, 0, 1, 3]⟩ := by decide
+      (.progress [.ignored, .st .suspended])).2 = ⟨.ok, [0, 1, 1, 1, 3]⟩ := by decide
 
 /-! ## 5. no identifier twice -/
 
